@@ -82,7 +82,7 @@ def check(run):
     EC.headroom_class = lambda c: (c['grp'],)
     try:
         K = max(GC.needed_K(c) for c in flat)
-        pairs = EC.evaluate(flat, K, 'MC_C04', run, spec='MC_Assembly', invariants=('Symmetric',), max_retry=12)
+        pairs = EC.evaluate(flat, K, 'MC_C04', run, spec='MC_Assembly', invariants=('Symmetric',), max_retry=80)
     finally:
         EC.headroom_class = old
     bygrp = {}
